@@ -716,6 +716,20 @@ static void cmd_lp(int nt, char **t)
 	loc_report(&x, &y);
 	json_object_put(o); json_tokener_free(tok); free(buf); free(b);
 }
+/* DFMT <0 global | 1 thread> <hex format | ->   json_c_set_serialization_double_format;  SERFMT <h> <hex format>: per-node format */
+static void cmd_dfmt(int nt, char **t)
+{
+	char *f = (nt > 2 && t[2][0] != '-') ? keyarg(t[2]) : NULL; int rc = json_c_set_serialization_double_format(f, L(t[1]) ? JSON_C_OPTION_THREAD : JSON_C_OPTION_GLOBAL);
+	ob_printf(&out, "= %d", rc); free(f);
+}
+static void serfmt_rec(struct json_object *o, const char *f)
+{
+	if (!o) return;
+	if (json_object_is_type(o, json_type_double)) json_object_set_serializer(o, json_object_double_to_json_string, strdup(f), json_object_free_userdata);
+	else if (json_object_is_type(o, json_type_array)) { size_t i, n = json_object_array_length(o); for (i = 0; i < n; i++) serfmt_rec(json_object_array_get_idx(o, i), f); }
+	else if (json_object_is_type(o, json_type_object)) { json_object_object_foreach(o, k, v) { (void)k; serfmt_rec(v, f); } }
+}
+static void cmd_serfmt(int nt, char **t) { char *f = keyarg(t[2]); (void)nt; serfmt_rec(H[hidx(t[1])], f); free(f); ob_puts(&out, "= ok"); }
 static void cmd_ls(int nt, char **t)
 {
 	int h = hidx(t[1]); int flags = (int)L(t[2]); size_t len = 0; const char *sx; struct locobs x, y; (void)nt;
@@ -834,6 +848,8 @@ static void dispatch(int nt, char **t)
 	else if (!strcmp(c, "LOC")) cmd_loc(nt, t);
 	else if (!strcmp(c, "LP")) cmd_lp(nt, t);
 	else if (!strcmp(c, "LS")) cmd_ls(nt, t);
+	else if (!strcmp(c, "DFMT")) cmd_dfmt(nt, t);
+	else if (!strcmp(c, "SERFMT")) cmd_serfmt(nt, t);
 	else if (!strcmp(c, "FDW")) cmd_fdw(nt, t);
 	else if (!strcmp(c, "FDR")) cmd_fdr(nt, t);
 	else if (!strcmp(c, "FDF")) cmd_fdf(nt, t);
